@@ -440,12 +440,14 @@ func chainHistory(m *mon.M, r *rand.Rand, idx, blocks int) {
 	a.QiPerStep, a.ConvEvery = 3, 2
 	wit := map[string]any{"history": idx}
 	var orders []int
+	var canon []*hnet.Mined // the canonical chain as mined (truncated at every fork)
 	step := func(want int) bool {
 		mm, err := a.Step(hnet.MineOpts{WantOrder: want})
 		if err != nil {
 			m.Violation("own-block-rejected", err.Error(), wit)
 			return false
 		}
+		canon = append(canon, mm)
 		if err := a.N.Settle(); err != nil {
 			m.Violation("own-block-not-executable", err.Error(), wit)
 			return false
@@ -480,17 +482,37 @@ func chainHistory(m *mon.M, r *rand.Rand, idx, blocks int) {
 	}
 	// reorg: competing branch from an ancestor, then walk the new canonical chain
 	for round := 0; round < 2; round++ {
+		// in the second round both branches start with a prime-order block over region blocks that no prime block
+		// has collected yet: the two prime blocks take the same emitted ETXs (incl. conversions) from the region's rollups
+		shared := round == 1
+		if shared {
+			for _, want := range []int{2, 2, 2, 1, 2, 1} {
+				if !step(want) {
+					return
+				}
+			}
+		}
 		anc := a.N.Heads()
+		forkLen := len(canon)
 		depthA := 1 + r.Intn(4)
 		for k := 0; k < depthA; k++ {
-			if !step(-1) {
+			want := -1
+			if shared && k == 0 {
+				want = 0
+			}
+			if !step(want) {
 				return
 			}
 		}
 		a.N.SetTips(anc)
+		canon = canon[:forkLen]
 		depthB := depthA + 1 + r.Intn(3)
 		for k := 0; k < depthB; k++ {
-			if !step(-1) {
+			want := -1
+			if shared && k == 0 {
+				want = 0
+			}
+			if !step(want) {
 				return
 			}
 		}
@@ -510,6 +532,29 @@ func chainHistory(m *mon.M, r *rand.Rand, idx, blocks int) {
 		}
 	}
 	walk(m, a.N, a.N.Heads()[2], "final", wit, 30)
+	// a fresh hierarchy that is delivered only the canonical chain must accept and execute every block: the inbound
+	// ETX lists the dominant chains hand down are a function of the chain, not of what else the node has processed
+	fresh, err := hnet.New(hnet.Options{GenAllocs: a.N.Opts.GenAllocs, QuaiCoinbase: a.N.Opts.QuaiCoinbase, QiCoinbase: a.N.Opts.QiCoinbase})
+	if err != nil {
+		m.Inconclusive("fresh node did not start: " + err.Error())
+		return
+	}
+	defer fresh.Stop()
+	for k, mm := range canon {
+		err := fresh.Follow(mm)
+		if err == nil {
+			err = fresh.Settle()
+		}
+		if err != nil {
+			m.Violation("fresh-node-rejects-canonical-chain", fmt.Sprintf("block %d of %d (order %d, numbers %v): %v", k, len(canon), mm.Order, mm.Number, err), wit)
+			return
+		}
+		for _, tx := range mm.Blocks[2].Transactions() {
+			if tx.Type() == types.ExternalTxType {
+				m.Eval("etx-executed-identically-by-fresh-follower:"+kindName(tx), tx.Hash().Hex())
+			}
+		}
+	}
 	if idx == 0 {
 		m.Sample(map[string]any{"history": idx, "orders": orders, "submitted": fmt.Sprint(a.Submitted)})
 	}
@@ -538,4 +583,24 @@ func TestC04(t *testing.T) {
 	}
 	m.Floor(600, 10)
 	m.Need("queue:index-growth-past-255", "queue:index-growth-past-65535", "routing:prime-partition", "chain:exactly-once:final", "chain:queue-equals-etx-set-root")
+}
+
+func kindName(tx *types.Transaction) string {
+	switch tx.EtxType() {
+	case types.DefaultType:
+		return "default"
+	case types.CoinbaseType:
+		return "coinbase"
+	case types.ConversionType:
+		return "conversion"
+	case types.ConversionRevertType:
+		return "conversion-revert"
+	case types.CoinbaseLockupType:
+		return "coinbase-lockup"
+	case types.WrappingQiType:
+		return "wrapping-qi"
+	case types.UnwrapQiType:
+		return "unwrap-qi"
+	}
+	return fmt.Sprintf("type%d", tx.EtxType())
 }
